@@ -158,7 +158,13 @@ class Check:
                         queue.extend((key, tr) for tr in r['frontier'])
             pending = still
             while queue and len(pending) < 2 * NPROC:
-                key, tr = queue.pop()
+                # fair share: serve the job with the fewest tasks in flight
+                inflight = {}
+                for key_, _ in pending:
+                    if isinstance(key_, int):
+                        inflight[key_] = inflight.get(key_, 0) + 1
+                best = min(range(len(queue)), key=lambda i: (inflight.get(queue[i][0], 0), -i))
+                key, tr = queue.pop(best)
                 job = jobs[key]
                 left = job['timeout'] - (time.time() - t_start)
                 if left <= 1:
